@@ -1,5 +1,7 @@
 """C16 - mandoline's plotfile-format slice is a valid 2D plotfile of the plane data."""
 import os
+import contextlib
+import io
 import random
 from fractions import Fraction
 import numpy as np
@@ -181,8 +183,15 @@ def run_case(seed):
         desc = dict(seed=seed, normal=cn, position_units_of_dx_over_8=P, pos=pos, fields=fields, limit_level=limit_arg,
                     serial=serial, region=region, meta=pf.meta)
         core.set_policy(rng.choice(['identity', 'reverse', 'random']), seed + k)
-        res = core.outcome(lambda: Mandoline(path, fields=fields, limit_level=limit_arg, serial=serial,
-                                             verbose=0).slice(normal=cn, pos=pos, outfile=outp, fformat='plotfile'))
+        verb = random.Random(seed * 4409 + k).choice([0, 0, 1, 2, 3])
+        count(f"verbosity={verb}")
+        desc['verbose'] = verb
+
+        def cut():
+            with contextlib.redirect_stdout(io.StringIO()):
+                return Mandoline(path, fields=fields, limit_level=limit_arg, serial=serial,
+                                 verbose=verb).slice(normal=cn, pos=pos, outfile=outp, fformat='plotfile')
+        res = core.outcome(cut)
         core.set_policy('identity', 0)
         out['evals'] += 1
         out['keys'].append(core.khash(seed, k))
